@@ -120,6 +120,30 @@ def run_build(case, drv):
     cpd = mk_cpd(case)
     m = model_cpd(case, drv)
     names, card, labels = case["names"], case["card"], case["labels"]
+    # the table given as a float64 array (as counts or a work buffer would be): the CPD owns its numbers, the array stays the caller's
+    import numpy as np
+    from pgmpy.factors.discrete import TabularCPD, DiscreteFactor
+    pn_ = [gen.lab(x) for x in names]
+    v_, ps_ = case["child"], case["parents"]
+    arr = np.array([[float(Fraction(x)) for x in row] for row in case["table"]], dtype=float)
+    arr0 = arr.copy()
+    c2 = TabularCPD(pn_[v_], card[v_], arr, evidence=[pn_[p] for p in ps_] if ps_ else None,
+                    evidence_card=[card[p] for p in ps_] if ps_ else None,
+                    state_names={pn_[x]: [gen.lab(l) for l in labels[x]] for x in [v_] + ps_})
+    if not np.array_equal(arr, arr0):
+        return fail("constructor modified the array it was given")
+    arr *= 3.0
+    arr[0, 0] = 0.123
+    err = compare_factor(c2, m["f"], names, card, labels)
+    if err:
+        return fail("a CPD built from an ndarray changes when the caller later writes to that array: " + err)
+    flat = np.array([float(Fraction(x)) for row in case["table"] for x in row], dtype=float)
+    f2 = DiscreteFactor([pn_[x] for x in [v_] + ps_], [card[x] for x in [v_] + ps_], flat,
+                        state_names={pn_[x]: [gen.lab(l) for l in labels[x]] for x in [v_] + ps_})
+    flat += 1.0
+    err = compare_factor(f2, m["f"], names, card, labels)
+    if err:
+        return fail("a factor built from an ndarray changes when the caller later writes to that array: " + err)
     err = compare_factor(cpd, m["f"], names, card, labels)
     if err:
         return fail("constructor: " + err)
